@@ -211,7 +211,8 @@ def work_range(job):
 
 ERRS = ('#NUM!', '#VALUE!', '#N/A', '#DIV/0!', '#REF!', '#NAME?', '#NULL!')
 BAD_SERIALS = [-1e300, -1e10, -1, -0.5, -1e-9, C.MAX_SERIAL + 1, C.MAX_SERIAL + 1.5, C.MAX_SERIAL + 2, 1e7, 1e10, 1e12, 1e300]
-BAD_SHIFTS = [-1e300, -1e10, -10 ** 6, 10 ** 6, 1e10, 1e300]
+BAD_SHIFTS = [-1e300, -1e10, -10 ** 6, 10 ** 6, 1e10, 1e300, float('inf'), float('-inf')]
+INFS = [float('inf'), float('-inf')]
 ODD_TYPES = ['45000', '1', 'abc', '', ' ', True, False, None, '#N/A', '#DIV/0!', '12:00', '1900-01-01',
              'nan', 'inf', '-inf', 'Infinity', '1e400', '1:', ':', ':00', '1::00', '1:00:', '0:0:', '25:00', '1:60', '12:30 PM', '1:00PM']
 FUNCS = [('YEAR', [45000]), ('MONTH', [45000]), ('DAY', [45000]), ('WEEKDAY', [45000]), ('HOUR', [0.5]), ('MINUTE', [0.5]),
@@ -241,12 +242,12 @@ def work_offgrid(job):
                 pool = [(v, '#NUM!') for v in ([-1, -0.5, 10000, 10400, 1e10, 1e300, -1e300] if pos == 0 else
                                                ([-10 ** 6, 10 ** 6, 99999 * 12, -2000 * 12] if pos == 1 else [-10 ** 6, 10 ** 7]) + [-1e10, 1e10, -1e300, 1e300])]
             elif fn == 'YEARFRAC' and pos == 2:
-                pool = [(v, '#NUM!') for v in (-1, 5, 7, 1e10, -1e300)]
+                pool = [(v, '#NUM!') for v in (-1, 5, 7, 1e10, -1e300, float('inf'), float('-inf'))]
             elif pos == 0 or fn == 'YEARFRAC':
                 pool = [(v, '#NUM!') for v in BAD_SERIALS]
             else:
                 pool = [(v, '#NUM!') for v in BAD_SHIFTS]
-            pool += [(v, 'any') for v in ODD_TYPES]
+            pool += [(v, 'any') for v in ODD_TYPES + (INFS if (fn, pos) not in (('EDATE', 1), ('EOMONTH', 1), ('YEARFRAC', 2)) else [])]
             for v, want in pool:
                 args = list(base)
                 args[pos] = v
@@ -274,6 +275,20 @@ def work_offgrid(job):
                 if yy < 1899 and o[1] != '#NUM!':
                     acc.violation(dict(case, verdict='not-num-error', observed=jsonable(o[1])),
                                   f'=DATE({y},{m},{d}) = {o[1]!r}; month {m} carries the year to {yy}, expected #NUM!')
+    # month shifts that carry the year to 0 or below, for every residue mod 12 (the month lengths of such years are never needed)
+    for n, (y0, m0) in ((100, (1900, 4)), (45000, (2023, 3)), (2958465, (9999, 12))):
+        for back in (0, 1, 600, 1900):
+            centre = -((y0 - 1 + back) * 12 + m0)
+            for k in range(centre - 14, centre + 14):
+                for fn in ('EDATE', 'EOMONTH'):
+                    f, env, o = call(fn, [n, k])
+                    case = dict(kind='offgrid', fn=fn, pos=1, arg=k, atype='int', serial=n)
+                    yy = (y0 * 12 + m0 - 1 + k) // 12
+                    if o[0] != 'ok':
+                        acc.violation(dict(case, verdict='raised', exc=o[1]), f'={fn}({n},{k}) raised {o[1]}: {o[2][-100:]}')
+                    elif yy < 1900 and o[1] != '#NUM!':
+                        acc.violation(dict(case, verdict='not-num-error', observed=jsonable(o[1])),
+                                      f'={fn}({n},{k}) = {o[1]!r}; the shift carries the year to {yy}, expected #NUM!')
     # a time of day on top of the date: the date parts are those of the day
     for n in [0, 1, 58, 59, 60, 61, 365, 366, 367, 45000, 73050, C.MAX_SERIAL - 1, C.MAX_SERIAL]:
         for fr in (0.25, 0.5, 0.999):
@@ -323,6 +338,10 @@ def run(ctx):
     shifts = list(range(-1200, 1201)) if ctx.thorough else sorted(set(range(-26, 27)) | {-1200, -1199, -120, -49, -48, 48, 49, 120, 1200})
     yrs = [1900, 1901, 1902, 1903, 1904, 1905, 1999, 2000, 2001, 9998, 9999]
     ctx.pmap(work_months, [([y], shifts) for y in yrs], timeout=6000)
+    # Excel's calendar does not repeat with the Gregorian 400-year cycle (1900 is a leap year in it; 2300, 2700, 9900 at
+    # the same place of the cycle are not): those years together with 1900 in ONE brand-new process, in both orders
+    cyc = [1900, 2300, 2700, 9900, 2100, 2000, 2400, 1904]
+    ctx.fresh(work_months, [(cyc, [-2, -1, 0, 1, 2, 12]), (cyc[::-1], [-2, -1, 0, 1, 2, 12]), ([2300, 1900], [1, 0, -1]), ([1900, 2300], [1, 0, -1])])
     fracs = (0, 0.25, 0.49, 0.51, 0.75) if ctx.thorough else (0, 0.4, 0.6)
     ctx.pmap(work_seconds, [(s, min(s + 5400, 86400), 0, fracs) for s in range(0, 86400, 5400)], timeout=3000)
     # the same seconds on top of a date part (the rounding must survive a large integer part)
